@@ -204,6 +204,16 @@ class SymV(_VBase):
         self.c.inputs[name] = v
         return SymBool(v)
 
+    def string(self, name, regex=None):
+        """symbolic string, optionally constrained to a z3 regular expression"""
+        from .strs import SymStr
+
+        v = z3.String(name)
+        self.c.inputs[name] = v
+        if regex is not None:
+            self.c.solver.add(z3.InRe(v, regex))
+        return SymStr(v)
+
     def choice(self, name, n):
         """symbolic index 0..n-1, returned as a concrete int (forks)"""
         return self.int(name, 0, n - 1).__index__()
@@ -399,6 +409,9 @@ class ConcV(_VBase):
 
     def bool(self, name):
         return bool(self._get(name))
+
+    def string(self, name, regex=None):
+        return str(self._get(name))
 
     def choice(self, name, n):
         return self.int(name, 0, n - 1)
